@@ -219,7 +219,9 @@ pub fn monitor(c: &Cfg, r: &crate::run::Run, n: usize, has_terminal: bool, viols
                     // a run that ran out of its step budget one rounding error before xend truthfully
                     // needs one more (tiny) step: only exact coverage contradicts NeedLargerNMax
                     let exact = last.map(|t| t.to_bits() == c.xend.to_bits()).unwrap_or(false) && (far_end.to_bits() == c.xend.to_bits());
-                    let covered = if other == Status::NeedLargerNMax { exact } else { covered_by_samples };
+                    // (the same for a run that gives up with StepSizeTooSmall a few ulps before xend: the remaining
+                    // sliver is below the solver's own step-size floor - e.g. Radau at x0 = 0.3 on a span of 1e-12)
+                    let covered = if other == Status::NeedLargerNMax || other == Status::StepSizeTooSmall { exact } else { covered_by_samples };
                     if c.t_eval.is_none() && covered && s.t.len() > 1 {
                         v("covered-not-success", format!("the last sample is xend but status is {:?}", other));
                     }
@@ -233,7 +235,8 @@ pub fn run_check(replay: Option<Value>) -> i32 {
     let mut rep = Report::new("C03", "model_checking");
     let only = replay.as_ref().and_then(|c| c["key"].as_str().map(|s| s.to_string()));
     let thorough = is_thorough();
-    let x0s: Vec<f64> = if thorough { vec![0.0, 1.0, -1e3, 1e6] } else { vec![0.0, 1.0, -1e3] };
+    // (0.3: fl(0.3 + 1e-12) - 0.3 is 9.99978e-13, strictly below the nominal span)
+    let x0s: Vec<f64> = if thorough { vec![0.0, 1.0, -1e3, 0.3, 1e6] } else { vec![0.0, 1.0, -1e3, 0.3] };
     let spans: Vec<f64> = vec![1e-12, 1e-9, 1e-3, 1.0, 1e3, 1e9, f64::INFINITY];
     let fss = [Fs::None, Fs::Seventh, Fs::Span, Fs::TwiceSpan, Fs::WrongSign];
     let mss = [Ms::None, Ms::Inf, Ms::Quarter, Ms::Odd, Ms::FiveSpan];
